@@ -813,7 +813,7 @@ Proof.
     destruct (n_op nd) eqn:Eo; try (injection H as <- _ _; apply same_db_refl).
     destruct (cfg_insert st _ _) as [st1|] eqn:Ins; injection H as <- _ _; [|apply same_db_refl].
     destruct (cfg_insert_spec _ _ _ _ Ins) as (_ & Hr & _ & _ & Ho).
-    eapply same_db_cfg_other; eauto. apply Hd. reflexivity.
+    eapply same_db_cfg_other; eauto; apply Hd; reflexivity.
   - (* PUpdCfg *)
     destruct (cfg_write st _ cas cf) as [[st1 c1]|] eqn:Wc; injection H as <- _ _; [|apply same_db_refl].
     destruct (cfg_write_spec _ _ _ _ _ _ Wc) as (_ & Hr & _ & _ & Ho).
